@@ -50,6 +50,26 @@ fn dispatch_idles_body(&mut self, idles_cell: &mut Vec<IdleCallback<'l, Data>>, 
 //@ rw R14 1 <<for idle in idles>> => <<for idle in lit: idles>>
 //@ tail
     proof { assert(ran == taken); } /*@props C13*/
+//@ alt
+//@ rw R10 1/* <<self.handle.inner.idles.borrow_mut()>> => <<idles_cell>>
+//@ rw R10 2+/* <<self.handle.inner.idles.borrow_mut()>> => <<idles_cell_later>>
+//@ entry
+    // (alternative overlay for a body that walks the taken queue with `idles.drain(..)` -- typically in order to hand the
+    //  emptied buffer back afterwards; same contract, so writing to the queue after the callbacks ran is REPORTED)
+    let ghost taken = idles_cell@;
+    let ghost mut ran: Seq<IdleCallback<'l, Data>> = Seq::empty();
+//@ loop 1
+        invariant
+            all_idles_accept::<Data>(),
+            idles_cell@.len() == 0,
+            *idles_cell_later == *old(idles_cell_later),
+            lit.seq() == taken,
+            ran == taken.take(lit.index@ as int),
+//@ after <<idle.borrow_mut().dispatch(>>
+            proof { ran = ran.push(idle); }
+//@ rw R20 1 <<for idle in idles.drain(..)>> => <<for idle in lit: crate::ext_vec::drain_all(&mut idles)>>
+//@ tail
+    proof { assert(ran == taken); } /*@props C13*/
 //@ endslice
 }
 
